@@ -125,7 +125,7 @@ SPECS = {
         "engines": [
             {"name": "undo", "n": {"quick": 150, "thorough": 2500}},
         ],
-        "explanation": "Theorem: on the history model (two stacks of entries of reverse operations, capacity 50, redo cleared by a new update) with the content edits of C14's alphabet (counter increase with 32/64-bit wrap, object set/delete, array insert/delete, text replace) k undos show exactly the content recorded k steps back and j <= k redos the content k - j steps back, for every program and every k within the capacity; proved generically for every executor whose reverses invert exactly, and the content edits are shown to be one. Engine: single-client sessions (updates, undo, redo, further updates cutting the redo branch, sessions longer than the capacity) on a real Document; content after every Undo/Redo compared with the recorded one, CanUndo/CanRedo compared with the walk; every session is replayed through the Coq model step by step. Tree content edits are judged by recorded XML; approximate kinds (styles, moves, set-by-index, merges, splits): Undo/Redo never fail or panic, clone == root, and a peer fed with all changes shows the author's content.",
+        "explanation": "Theorem: on the history model (two stacks of entries of reverse operations, capacity 50, redo cleared by a new update) with the content edits of C14's alphabet (counter increase with 32/64-bit wrap, object set/delete, array insert/delete, text replace) k undos show exactly the content recorded k steps back and j <= k redos the content k - j steps back, for every program and every k within the capacity; proved generically for every executor whose reverses invert exactly, and the content edits are shown to be one. Engine: single-client sessions (updates, undo, redo, further updates cutting the redo branch, sessions longer than the capacity) on a real Document; content after every Undo/Redo compared with the recorded one, CanUndo/CanRedo compared with the walk; every session is replayed through the Coq model step by step. Tree content edits are judged by recorded XML; approximate kinds (styles, moves, set-by-index, merges, splits): Undo/Redo never fail or panic, clone == root, and a peer fed with all changes shows the author's content. The sessions contain garbage-collection steps (everything acknowledged: tombstones purged, as on a synced client), after which an undo has to re-create what it restores (findings P51 and P53, repaired; P52, known: a re-created piece can land next to its sibling piece instead of where it was); a failing session is re-run without its collection steps and five times as it is for the signature.",
         "assumptions": [
             "PARTIAL: tree edits and the approximate kinds have no Coq model (engine oracles only)",
             "indices that would cut a UTF-16 surrogate pair are not generated (finding P26 of C07)",
